@@ -140,13 +140,15 @@ structure Peak where
   pos : Nat := 0
 deriving Repr, DecidableEq, Inhabited
 
-/-- smallest binary32 pattern `float32_be_write` encodes: FLT_MIN (`fabs (in) < FLT_MIN` returns early since the repair of the
-    portable IEEE writers; before it the constant was the double 1e-30, 0x0DA24260) -/
+/-- FLT_MIN as a binary32 pattern: before the repair 71c426d `float32_be_write` returned early below it (`f32beWriteTinyOld`);
+    before ec5379c the constant was the double 1e-30, 0x0DA24260 -/
 def tinyBits : Nat := 0x00800000
 
-/-- `float32_be_write` of a finite non-negative value: patterns below FLT_MIN (zero and subnormals) become 0,
-    everything else keeps its IEEE bits -/
-def f32beWrite (v : Nat) : List Byte := if v % 2 ^ 31 < tinyBits then [0, 0, 0, 0] else beBytes 4 (v % 2 ^ 32)
+/-- `float32_be_write` of a finite non-negative value: its IEEE bits, subnormals and zero included (since 71c426d;
+    SfProps/C20Ieee `ieee_write_finite_f32`) -/
+def f32beWrite (v : Nat) : List Byte := beBytes 4 (v % 2 ^ 32)
+/-- the rule before 71c426d: patterns below FLT_MIN (zero and subnormals) became 0 -/
+def f32beWriteTinyOld (v : Nat) : List Byte := if v % 2 ^ 31 < tinyBits then [0, 0, 0, 0] else beBytes 4 (v % 2 ^ 32)
 
 def peakChunk (ch : Nat) (ps : List Peak) : List Byte :=
   mk4 "PEAK" ++ be32 (8 + 8 * ch) ++ be32 1 ++ be32 1000000000 ++        -- time (NULL), pinned by the harness
